@@ -20,6 +20,7 @@ Inductive ty :=
 | TDictT (k v : ty)
 | TSet (nonempty : bool) (t : ty)
 | TUnion (ts : list ty)
+| TTuple (ts : list ty)
 | TUnknown (repr : string).
 
 Record field := mkField {
@@ -40,7 +41,7 @@ Inductive class_def :=
 | KDict (kt vt : ty)                        (* DictCBORSerializable with generic codec *)
 | KBytes (lo hi : N)                        (* ConstrainedBytes *)
 | KEnum (vals : list Z)                     (* Enum that is CBORSerializable (Network, RedeemerTag) *)
-| KOpaque (shape : string).                 (* custom codec: opaque leaf, acceptance shape by name *)
+| KOpaque (shape : string) (code : option Z).   (* custom codec: opaque leaf; acceptance shape by name, optional leading type code *)
 
 Definition schema := list (string * class_def).
 
@@ -171,7 +172,7 @@ Definition as_int_opt (p : cbor) : option Z :=
 
 (* acceptance shapes of the custom (opaque) classes: on which primitives <Class>.from_primitive does
    NOT raise DeserializeException, as far as union discrimination needs it *)
-Definition shape_ok (shape : string) (p : cbor) : bool :=
+Definition base_shape_ok (shape : string) (p : cbor) : bool :=
   if String.eqb shape "bytes" then match p with CB _ => true | CT _ => true | _ => false end
   else if String.eqb shape "array" then match p with CA _ => true | CAi _ => true | _ => false end
   else if String.eqb shape "list" then match p with CA _ => true | _ => false end
@@ -182,6 +183,15 @@ Definition shape_ok (shape : string) (p : cbor) : bool :=
   else if String.eqb shape "auxdata" then match p with CTag 259 _ => true | CA _ => true | CAi _ => true | CM _ => true | _ => false end
   else if String.eqb shape "any" then true
   else false.
+Definition shape_ok (shape : string) (code : option Z) (p : cbor) : bool :=
+  base_shape_ok shape p &&
+  match code with
+  | None => true
+  | Some z => match p with
+              | CA (h :: _) => match as_int_opt h with Some z' => Z.eqb z z' | None => false end
+              | _ => false
+              end
+  end.
 
 Definition cbor_eqb (a b : cbor) : bool := bytes_eqb (enc a) (enc b).
 
@@ -254,6 +264,13 @@ Section DecFields.
         | None => EOther "missing required argument"
         end
     | _ :: _, [] => EOther "internal"
+    end.
+  (* typing.Tuple[...]: element-wise, lengths must agree *)
+  Fixpoint zipT (ts : list ty) (ps : list cbor) : res (list pv) :=
+    match ts, ps with
+    | [], [] => Ok []
+    | t :: tr, p :: pr => do v <- dec1 t p; do rest <- zipT tr pr; Ok (v :: rest)
+    | _, _ => EDeser
     end.
   (* union: alternatives in declaration order, only DeserializeException is caught *)
   Fixpoint firstM (ts : list ty) (p : cbor) : res pv :=
@@ -332,7 +349,7 @@ Fixpoint from_prim (S : schema) (n : nat) (t : ty) (p : cbor) {struct n} : res p
             | Some z => if existsb (Z.eqb z) vals then Ok (VEnum c z) else EOther "ValueError"
             | None => EDeser
             end
-        | Some (KOpaque shape) => if shape_ok shape p then Ok (VOpq c p) else EDeser
+        | Some (KOpaque shape code) => if shape_ok shape code p then Ok (VOpq c p) else EDeser
         | None => EOther "unknown class"
         end in
       match t with
@@ -374,6 +391,12 @@ Fixpoint from_prim (S : schema) (n : nat) (t : ty) (p : cbor) {struct n} : res p
           | _ => EOther "ValueError"
           end
       | TUnion ts => firstM (from_prim S n') ts p
+      | TTuple ts =>
+          match is_list_prim p with
+          | Some ps => if Nat.eqb (length ps) (length ts)
+                       then do vs <- zipT (from_prim S n') ts ps; Ok (VList vs) else EDeser
+          | None => EDeser
+          end
       | TUnknown _ => EDeser
       end
   end.
